@@ -54,8 +54,10 @@ THEOREMS = [
     'CC.C12_kvl_sample',
     'CC.C12_frequency_response',
 ]
+# round 5: the output rows deliver the report (CC.C10_output_rows, lean/CC/Properties/C10Rows.lean); per-sample circuit equations for the rows themselves
+THEOREMS += ['CC.C10_output_rows', 'CC.C12_rows_sample_circuit']
+LEAN_MODULE_EXTRA = list(globals().get('LEAN_MODULE_EXTRA', [])) + ['CC.Properties.C10Rows']
 OPEN_STATEMENTS = [
-    'CC.C10_output_rows_statement — the voltage and current OUTPUT ROWS (c_row_voltage, c_row_current, d_row_*) give the report read from y = C x + D u: model = generated code (C10_gen_row_*) + correspondence + oracle only',
     "not formalised: 'agrees with the exact response of the linear system for piecewise-linear inputs' — lsim is a parameter of the model; oracle only (independent matrix-exponential reference on every case)",
     "not formalised: 'for constant inputs they settle to the DC solution' — C12_settle_dc is the fixed-point identity only (needs Re λ < 0 and the flow); oracle only (settle stream against DCSolution)",
     "not formalised: 'for periodic inputs they settle to the multi-frequency steady state of C09' — C12_frequency_response (= C10_transfer) is the frequency response only, not convergence of the simulation; oracle only (periodic-steady-state stream against TimeDomainSolution)",
